@@ -308,6 +308,37 @@ Proof. vm_compute; reflexivity. Qed.
 Example sq_nonvacuous : sq_free [104;116;116;112;58;47;47;104;47;63;113;61;34;92;37;50;55] = true.
 Proof. vm_compute; reflexivity. Qed.
 
+(* ---- the sites that double the quote (commit 059139b3): uri, command, encoding ---- *)
+Lemma sq_body_escaped s : sq_body (escape_sq s ++ [SQ]) = if one_line s then Some s else None.
+Proof.
+  unfold escape_sq, replace_char. induction s as [|c s IH]; [reflexivity|].
+  cbn [flat_map one_line forallb]. destruct (N.eqb c SQ) eqn:Ec.
+  - apply N.eqb_eq in Ec. subst c. cbn [app sq_body]. change (SQ =? SQ) with true. cbv iota.
+    rewrite IH. change (one_line_char SQ) with true. cbn [andb]. fold (one_line s). destruct (one_line s); reflexivity.
+  - cbn [app sq_body]. change (c =? SQ) with (N.eqb c SQ). rewrite Ec.
+    replace (sq_lit c) with (one_line_char c) by (unfold sq_lit, one_line_char; change (c =? SQ) with (N.eqb c SQ); rewrite Ec; rewrite andb_true_r; reflexivity).
+    rewrite IH. fold (one_line s). destruct (one_line_char c), (one_line s); reflexivity.
+Qed.
+
+Lemma sq_escaped_decode s : yaml_sq_decode (emit_sq_escaped s) = if one_line s then Some s else None.
+Proof. unfold yaml_sq_decode, emit_sq_escaped. change (SQ =? SQ) with true. cbv iota. apply sq_body_escaped. Qed.
+
+Lemma sq_escaped_valid_iff s : yaml_sq_decode (emit_sq_escaped s) = Some s <-> one_line s = true.
+Proof. rewrite sq_escaped_decode. destruct (one_line s); split; congruence. Qed.
+
+(* the raw rule (before the fix) against the escaping rule on the same values *)
+Lemma sq_raw_rule_refuted :
+  one_line url_with_quote = true
+  /\ yaml_sq_decode (emit_sq url_with_quote) = None
+  /\ yaml_sq_decode (emit_sq [97; 39; 39; 98]) = Some [97; 39; 98]
+  /\ yaml_sq_decode (emit_sq_escaped url_with_quote) = Some url_with_quote
+  /\ yaml_sq_decode (emit_sq_escaped [39; 97; 39; 39; 98; 39]) = Some [39; 97; 39; 39; 98; 39].
+Proof. repeat split; vm_compute; reflexivity. Qed.
+
+(* what is left: a value with an unprintable character or a line break (charset a DEL b with --report-preserve-bytes) *)
+Lemma sq_escaped_refuted : is_unicode [97; 127; 98] = true /\ yaml_sq_decode (emit_sq_escaped [97; 127; 98]) = None.
+Proof. split; vm_compute; reflexivity. Qed.
+
 (* header names between raw double quotes *)
 Lemma dq_raw_body s : dq_raw_free s = true -> dq_body false (s ++ [DQ]) = Some s.
 Proof.
